@@ -18,3 +18,21 @@ Definition ex_h1 : list N := ex_mk ex_key1 4660 63 0 5.
 Definition ex_h2 : list N := ex_mk ex_key2 (N.lxor 4660 (sigma ex_h1)) 63 8 0.
 Definition ex_view : list N :=
   assemble 0 0 0 2 0 0 [[1; 0] ++ be_bytes 2 4660 ++ be_bytes 4 ex_ts] [ex_h1; ex_h2].
+
+(** C11, composed walk: two segments of two hops, the first travelled against construction
+    direction, the second in construction direction; ASes A, B (crossover), C *)
+Definition ex_kA : list N := repeat 1 16.
+Definition ex_kB : list N := repeat 2 16.
+Definition ex_kC : list N := repeat 3 16.
+Definition ex_keyf (j : nat) : list N :=
+  match j with 0%nat => ex_kA | 1%nat => ex_kB | 2%nat => ex_kB | _ => ex_kC end.
+(* segment 0 in construction order: c0 (AS B), c1 (AS A), chained from 200 *)
+Definition ex_c0 : list N := ex_mk ex_kB 200 63 0 11.
+Definition ex_c1 : list N := ex_mk ex_kA (N.lxor 200 (sigma ex_c0)) 63 12 0.
+(* segment 1 in construction order: d0 (AS B), d1 (AS C), chained from 100 *)
+Definition ex_d0 : list N := ex_mk ex_kB 100 63 0 21.
+Definition ex_d1 : list N := ex_mk ex_kC (N.lxor 100 (sigma ex_d0)) 63 22 0.
+Definition ex2_IF : list (list N) :=
+  [[0; 0] ++ be_bytes 2 (N.lxor 200 (sigma ex_c0)) ++ be_bytes 4 ex_ts;
+   [1; 0] ++ be_bytes 2 100 ++ be_bytes 4 ex_ts].
+Definition ex2_HF : list (list N) := [ex_c1; ex_c0; ex_d0; ex_d1].
